@@ -29,13 +29,17 @@ MANIFEST = dict(
          "which (without temperature sugar / digit separators) is exactly the tree the expression was elaborated from "
          "(list and struct literals included); C15_roundtrip_sep — with digit separators: the same up to the separators of the "
          "literals; C15_fixed_point_partial — re-elaborating that tree in a session with the same "
-         "unit / function names gives a typed tree with the same echo (expressions without sugar and negative literals); "
+         "unit / function names gives a typed tree with the same echo (expressions without sugar); C15_roundtrip_exact_sugar / C15_fixed_point_sugar — the temperature "
+         "conversion functions are excluded only in the positions where the sugar form is really printed (as operands they are "
+         "echoed as calls and are exact); C15_fixed_point_neg — negative "
+         "literals included: the re-elaborated tree differs (the literal becomes a negation) but has the same echo in every mode; "
          "(3) C15_decorator_echo — the echo of EVERY decorator (any strings, any alias list with accepts annotations) is read "
          "back by the parser as that decorator; C15_definition_echo_partial — over a model of Statement::pretty_print for "
          "let / unit / fn / dimension / struct definitions (decorators one per line, name, readable types as type-annotation trees, echo of the "
          "body and of where-clauses) the echo of every echoable definition is accepted and read back as that definition "
          "with the same decorators and types (tied token-wise to the implementation's echo on generated decorated definitions); "
-         "(4) C15_reassociation_refuted — the excluded class (a sum or product on the right loses its parentheses) is real. "
+         "(4) C15_reassociation_refuted — the (since the repair small) excluded class is real: a chain of plain literals on the "
+         "right of + or × loses its parentheses and is read back re-associated. "
          "NOT proved, checked on the implementation only (echo oracle: interpret, echo, re-interpret the echo in a clone of "
          "the session, compare acceptance, type, value to 1e-12, echo of the echo, and a probe expression): how the readable "
          "types of statements are computed (inference, generalisation), "
@@ -45,14 +49,16 @@ MANIFEST = dict(
     note="Trusted: Coq kernel + vm_compute; the hand port of the expression printer in Syntax/TypedPrinter.v (tied on every run by "
          "comparing the tokens of the implementation's echo with the model's print of the intended typed tree) and of "
          "escape/strip in Syntax/StrEsc.v (strip_and_escape is also exercised by the C10 correspondence); the C10 parser model; "
-         "the generator's knowledge of how numbat elaborates its fully parenthesised sources. Eight echo defects were repaired by "
-         "fix: commits (phase 3: the echo of let / fn dropped the decorators, so aliases were lost), four are open findings (multi-name dimension types, implicit dimension of a base unit, sum re-association changing the display unit, product "
-         "re-association not a fixed point).",
+         "the generator's knowledge of how numbat elaborates its fully parenthesised sources. Ten echo defects were repaired by "
+         "fix: commits (phase 3: the echo of let / fn dropped the decorators; final phase: a sum or product on the right lost its "
+         "parentheses, changing the display unit resp. the fixed point), two are open findings (multi-name dimension types, "
+         "implicit dimension of a base unit).",
     technique="Coq proof (echo = concrete syntax tree; well-formedness by induction; reuse of the C10 round-trip theorem) + "
               "printer-model correspondence + metamorphic echo oracle on the real interpreter",
 )
 
-THEOREMS = ["C15_string_escape", "C15_roundtrip_partial", "C15_roundtrip_exact", "C15_roundtrip_sep", "C15_fixed_point_partial",
+THEOREMS = ["C15_string_escape", "C15_roundtrip_partial", "C15_roundtrip_exact", "C15_roundtrip_sep", "C15_roundtrip_exact_sugar", "C15_fixed_point_partial", "C15_fixed_point_neg",
+            "C15_fixed_point_sugar",
             "C15_lex_string_echo", "C15_lex_interp_echo", "C15_decorator_echo", "C15_definition_echo_partial",
             "C15_reassociation_refuted"]
 ALLOWED_AXIOMS = []
